@@ -51,6 +51,11 @@ func (l legacyEnvelope) MarshalJSON() ([]byte, error) {
 	return json.Marshal(map[string]json.RawMessage{"legacy": l.Inner})
 }
 
+// Tags is a nil-able entity type (a slice): a nil value encodes as JSON null and is stored as such.
+type Tags []string
+
+const tagsType = "c18.tags"
+
 type Ghost struct{ X int } // never registered
 
 // namesake: a user-shaped entity published under an entity type name that is not registered but
@@ -145,6 +150,18 @@ func build(s msgSpec) (any, error) {
 			case "delete-old":
 				return state.DeleteWithOldValue(s.Key, e)
 			}
+		case Tags:
+			et := state.WithEntityType(tagsType)
+			switch op {
+			case "insert":
+				return state.Insert(s.Key, e, et)
+			case "update":
+				return state.Update(s.Key, e, et)
+			case "update-old":
+				return state.UpdateWithOldValue(s.Key, e, Tags{"old"}, et)
+			case "delete-old":
+				return state.DeleteWithOldValue(s.Key, e, et)
+			}
 		case namesake:
 			// an unregistered entity type whose name ends like a registered one's
 			et := state.WithEntityType(e.Type)
@@ -181,6 +198,8 @@ func build(s msgSpec) (any, error) {
 			return state.Delete[Product](s.Key)
 		case "order":
 			return state.Delete[Order](s.Key)
+		case "tags":
+			return state.Delete[Tags](s.Key, state.WithEntityType(tagsType))
 		default:
 			if s.Key == keys[0] {
 				return state.Delete[User](s.Key, state.WithEntityType("other.User"))
@@ -208,7 +227,7 @@ func gen(r *rand.Rand) []msgSpec {
 	var l []msgSpec
 	for i := 0; i < n; i++ {
 		key := keys[r.IntN(len(keys))]
-		ent := []string{"user", "user", "product", "order", "ghost"}[r.IntN(5)]
+		ent := []string{"user", "user", "product", "order", "ghost", "tags"}[r.IntN(6)]
 		var val any
 		switch ent {
 		case "user":
@@ -217,6 +236,8 @@ func gen(r *rand.Rand) []msgSpec {
 			val = genProduct(r)
 		case "order":
 			val = genOrder(r)
+		case "tags":
+			val = []Tags{nil, nil, {}, {"a"}, {"a", "b"}}[r.IntN(5)]
 		default:
 			val = Ghost{X: r.IntN(9)}
 			if r.IntN(2) == 0 {
@@ -259,6 +280,7 @@ func gen(r *rand.Rand) []msgSpec {
 }
 
 type model struct {
+	tags     map[string]Tags // a nil-able entity type: nil is a value like any other
 	users    map[string]User
 	products map[string]Product
 	orders   map[string]Order
@@ -268,14 +290,14 @@ type model struct {
 }
 
 func newModel() *model {
-	return &model{users: map[string]User{}, products: map[string]Product{}, orders: map[string]Order{}}
+	return &model{users: map[string]User{}, products: map[string]Product{}, orders: map[string]Order{}, tags: map[string]Tags{}}
 }
 
 // applies folds one message; ok=false: the event cannot be applied (state and last offset unchanged).
 func (m *model) apply(s msgSpec, off ebu.Offset, strict bool) (ok bool) {
 	switch s.Kind {
 	case "reset":
-		m.users, m.products, m.orders = map[string]User{}, map[string]Product{}, map[string]Order{}
+		m.users, m.products, m.orders, m.tags = map[string]User{}, map[string]Product{}, map[string]Order{}, map[string]Tags{}
 		m.resets++
 	case "snap-start":
 		m.snaps = append(m.snaps, true)
@@ -290,7 +312,7 @@ func (m *model) apply(s msgSpec, off ebu.Offset, strict bool) (ok bool) {
 			}
 			break
 		}
-		ck := map[string]string{"user": state.EntityType(User{}), "product": state.EntityType(Product{}), "order": orderType}[s.Ent] + "/" + s.Key
+		ck := map[string]string{"user": state.EntityType(User{}), "product": state.EntityType(Product{}), "order": orderType, "tags": tagsType}[s.Ent] + "/" + s.Key
 		switch s.Kind {
 		case "insert", "update", "update-old", "insert-newer":
 			switch v := s.Val.(type) {
@@ -300,6 +322,8 @@ func (m *model) apply(s msgSpec, off ebu.Offset, strict bool) (ok bool) {
 				m.products[ck] = v
 			case Order:
 				m.orders[ck] = v
+			case Tags:
+				m.tags[ck] = v
 			}
 		case "delete", "delete-old":
 			switch s.Ent {
@@ -309,6 +333,8 @@ func (m *model) apply(s msgSpec, off ebu.Offset, strict bool) (ok bool) {
 				delete(m.products, ck)
 			case "order":
 				delete(m.orders, ck)
+			case "tags":
+				delete(m.tags, ck)
 			}
 		}
 	}
@@ -317,6 +343,7 @@ func (m *model) apply(s msgSpec, off ebu.Offset, strict bool) (ok bool) {
 }
 
 type sess struct {
+	tags     *state.TypedCollection[Tags]
 	mat      *state.Materializer
 	users    *state.TypedCollection[User]
 	products *state.TypedCollection[Product]
@@ -344,6 +371,8 @@ func newSess(strict bool) *sess {
 	state.RegisterCollection(s.mat, s.users)
 	state.RegisterCollection(s.mat, s.products)
 	state.RegisterCollection(s.mat, s.orders)
+	s.tags = state.NewTypedCollectionWithType[Tags](state.NewMemoryStore[Tags](), tagsType)
+	state.RegisterCollection(s.mat, s.tags)
 	return s
 }
 
@@ -363,6 +392,15 @@ func (s *sess) diff(m *model, checkCallbacks bool) string {
 	}
 	if !reflect.DeepEqual(norm(s.orders.All()), m.orders) {
 		return fmt.Sprintf("order collection holds %+v, the fold of the log is %+v", s.orders.All(), m.orders)
+	}
+	gotTags := s.tags.All()
+	if len(gotTags) != len(m.tags) {
+		return fmt.Sprintf("tags collection holds %d entries %+v, the fold of the log has %d %+v", len(gotTags), gotTags, len(m.tags), m.tags)
+	}
+	for ck, want := range m.tags {
+		if got, ok := gotTags[ck]; !ok || fmt.Sprint([]string(got)) != fmt.Sprint([]string(want)) {
+			return fmt.Sprintf("tags collection holds %+v (present=%v) under %q, the fold of the log is %+v", got, ok, ck, want)
+		}
 	}
 	for ck, want := range m.users {
 		key := strings.TrimPrefix(ck, state.EntityType(User{})+"/")
